@@ -152,7 +152,9 @@ func formatFunctionName(name string) string {
 func escapeKeyword(name string) string {
 	// `self` is not a keyword, but it is the first parameter of every generated
 	// method: a field or an argument can't use that name.
-	if isReservedPythonKeyword(name) || name == "self" {
+	// `to_json` and `from_json` are the methods of every generated class: an
+	// attribute of that name would take their place on the instances.
+	if isReservedPythonKeyword(name) || name == "self" || name == "to_json" || name == "from_json" {
 		return name + "_val"
 	}
 
